@@ -152,6 +152,8 @@ class Subgraph:
         self.input_tensors = []
         # Preserve the original input order
         self.original_inputs = []
+        # For every entry of the original output list its position in output_tensors (None: output_tensors as is)
+        self.original_output_positions = None
         # Attach virtual outputs to resource variables op
         # in order to be able to traverse the graph correctly
         self.virtual_outputs = []
